@@ -92,6 +92,11 @@ type Run struct {
 	seenPanics int
 	// PanicProperty is the property a recorded panic is attributed to.
 	PanicProperty string
+	// LeaveCloseFamilyToC16: panics of the Close protocol ("send on / close of closed channel" inside
+	// package client) are counted, not judged, by scenarios of other properties; such a run is then not
+	// judged further (in production the process would have died).
+	LeaveCloseFamilyToC16 bool
+	CloseFamilyPanics     int
 	switches      int
 	listenOpts    map[string]LinkOpts
 	tearing       bool
@@ -295,6 +300,13 @@ func (r *Run) checkPanics() {
 		prop := r.PanicProperty
 		if prop == "" {
 			r.Probes["panics_left_to_another_property"]++
+			continue
+		}
+		if r.LeaveCloseFamilyToC16 && strings.Contains(p.Value, "closed channel") && strings.HasPrefix(fn, "client.") {
+			// a send on / close of a channel that Close has closed, inside package client: the Close
+			// protocol, which C16 judges (several sites are known findings there)
+			r.CloseFamilyPanics++
+			r.Probes["close_protocol_panics_left_to_C16"]++
 			continue
 		}
 		r.Violate(prop, "no-panic", fmt.Sprintf("panic:%s@%s", normalizePanic(val), fn),
